@@ -541,9 +541,13 @@ func (p *Process) getCommand() []string {
 }
 
 func (p *Process) updateProcState() {
-	isRunning := p.isRunning()
 	p.stateMtx.Lock()
 	defer p.stateMtx.Unlock()
+	// derived from the status under the same lock: a value computed before the lock was
+	// taken could be written after a concurrent status change and stay stale forever
+	isRunning := p.procState.Status == types.ProcessStateRunning ||
+		p.procState.Status == types.ProcessStateLaunched ||
+		p.procState.Status == types.ProcessStateLaunching
 	if isRunning {
 		dur := time.Since(p.getStartTime())
 		p.procState.SystemTime = HumanDuration(dur)
